@@ -104,7 +104,9 @@ KNOWN_CLASSES = {
     "regex_pattern_is_description": lambda kind, tags: "Regex" in tags and kind in ("member-but-invalid-against-schema", "valid-against-schema-but-rejected", "oracle-error"),
     "never_is_empty_anyOf": lambda kind, tags: "Never" in tags and kind == "schema-not-wellformed",
     "index_signature_allOf": lambda kind, tags: "Index" in tags and kind == "member-but-invalid-against-schema",
-    "empty_allOf_closed_object": lambda kind, tags: "AllOf" in tags and kind == "member-but-invalid-against-schema",
+    "empty_allOf_closed_object": lambda kind, tags: "EmptyAllOf" in tags and kind == "member-but-invalid-against-schema",
+    "contextual_allOf_of_named_closed_objects": lambda kind, tags: "AllOfWithRef" in tags and "mode:contextual" in tags
+                                                                   and kind == "member-but-invalid-against-schema",
     "empty_prefixItems": lambda kind, tags: "Tuple" in tags and kind == "schema-not-wellformed",
     "allOf_non_object_member": lambda kind, tags: "AllOf" in tags and kind == "valid-against-schema-but-rejected",
     "required_property_accepting_undefined": lambda kind, tags: "RequiredAcceptsUndefined" in tags and kind == "member-but-invalid-against-schema",
@@ -205,7 +207,10 @@ def check(run):
     recursive = {}
     for (ci, mode), orr in zip(ometa, ores):
         c = cases[ci]
-        tags = tree_tags(c)
+        tags = set(tree_tags(c)) | {"mode:" + mode}
+        for n in [x for r in [c["rt"]] + [b for _, b in c["env"]] for x in rt_nodes(r)]:
+            if n[0] == "AllOf" and len(n[1]) == 0: tags.add("EmptyAllOf")
+            if n[0] == "AllOf" and len(n[1]) >= 2 and any(m[0] == "Ref" or (m[0] == "Meta" and m[-1][0] == "Ref") for m in n[1]): tags.add("AllOfWithRef")
         desc = dict(rstage.case_text(c), mode=mode)
         if mode == "flat" and any(n[0] == "Ref" for r in [c["rt"]] + [b for _, b in c["env"]] for n in rt_nodes(r)):
             from checks.c13 import recursive_reachable
@@ -266,7 +271,7 @@ def check(run):
         w = eval(k["witness"], {"__builtins__": {}}, {"None": None, "True": True, "False": False})
         okj, py = to_py(w["value"])
         out = common.run_driver([{"id": 0, "env": env_json(w["env"]), "rt": rt_json(w["rt"]),
-                                  "ops": [{"op": "schemaRaw"}, {"op": "validate", "v": val_canon(w["value"]), "strict": True},
+                                  "ops": [{"op": "schemaRaw"}, {"op": "validate", "v": val_canon(w["value"]), "strict": not w.get("declared_keys_only", False)},
                                           {"op": "ctxseq", "calls": [0], "fresh": True}]}])[0]
         flat = json.loads(out[0])
         failing = False
